@@ -141,12 +141,12 @@ Qed.
 (* the row that the old rule corrupted is handled like any index based row now *)
 Definition s_w1_ : st :=
   {| grp := [{| gid := 0; gty := 0%nat; gmem := [4]; grc := RNone |}; {| gid := 1; gty := 0%nat; gmem := [7]; grc := RNaN |}];
-     tab := mk_tab [[(4, 0); (7, 1); (2, 2)]] |}.
+     tab := mk_tab [[(4, 0); (7, 1); (2, 2)]]; lsw := [] |}.
 Lemma attach_nan_row_now_union : exists s', attach s_w1_ 1 0%nat [2] = Ok s' /\ members_of s' 1 0%nat = Ok [7; 2].
 Proof. eexists. split; vm_compute; reflexivity. Qed.
 Definition s_w1 : st :=
   {| grp := [{| gid := 0; gty := 0%nat; gmem := [4]; grc := RNone |}; {| gid := 1; gty := 0%nat; gmem := [7]; grc := RNaN |}];
-     tab := mk_tab [[(4, 0); (7, 1); (2, 2)]] |}.
+     tab := mk_tab [[(4, 0); (7, 1); (2, 2)]]; lsw := [] |}.
 Lemma attach_nan_refuted :
   exists s g et elm s', attach_old s g et elm = Ok s' /\ members_of s g et = Ok [7] /\ members_of s' g et = Err "ValueError".
 Proof. exists s_w1, 1, 0%nat, [2]. eexists. split; [vm_compute; reflexivity | split; vm_compute; reflexivity]. Qed.
@@ -155,13 +155,13 @@ Lemma attach_unchecked_refuted :
   exists s g et elm s', attach_unchecked s g et elm = Ok s' /\ members_of s' g et = Ok [4; 88] /\ ~ In 88 (ids s' et) /\
                         attach s g et elm = Err "UserWarning".
 Proof.
-  exists {| grp := [{| gid := 0; gty := 0%nat; gmem := [4]; grc := RNone |}]; tab := mk_tab [[(4, 0); (7, 1)]] |}, 0, 0%nat, [88].
+  exists {| grp := [{| gid := 0; gty := 0%nat; gmem := [4]; grc := RNone |}]; tab := mk_tab [[(4, 0); (7, 1)]]; lsw := [] |}, 0, 0%nat, [88].
   eexists. split; [vm_compute; reflexivity|]. split; [vm_compute; reflexivity|]. split; [|vm_compute; reflexivity].
   vm_compute. intros [H|[H|[]]]; discriminate.
 Qed.
 (* two loads (4 and 2) carry the same name 0; the group is {name 0}; detaching load 4 also removes load 2 *)
 Definition s_w2 : st :=
-  {| grp := [{| gid := 0; gty := 0%nat; gmem := [0; 1]; grc := RName |}]; tab := mk_tab [[(4, 0); (2, 0); (7, 1)]] |}.
+  {| grp := [{| gid := 0; gty := 0%nat; gmem := [0; 1]; grc := RName |}]; tab := mk_tab [[(4, 0); (2, 0); (7, 1)]]; lsw := [] |}.
 Lemma detach_refcol_refuted :
   exists s et idl, members_of s 0 et = Ok [4; 2; 7] /\ members_of (detach s et idl None) 0 et = Ok [7].
 Proof. exists s_w2, 0%nat, [4]. split; vm_compute; reflexivity. Qed.
